@@ -41,6 +41,9 @@ BODIES = {
     "clear_isr": bytes([0x32, 0x71, 0xFC, 0xF0]),
     "ustack": bytes([0x2A, 0x3A]),
     "clear_then_reenable": bytes([0x32, 0x71, 0xFC, 0xF0, 0x32, 0x79, 0xFB, 0x80]),
+    # the handler acknowledges everything with a plain store of 0 and then software raises ANOTHER request
+    "zero_then_raise": bytes([0x32, 0xCC, 0xFC, 0x00, 0x32, 0x79, 0xFC, 0x02]),
+    "zero_then_raise_key": bytes([0x32, 0xCC, 0xFC, 0x00, 0x32, 0x79, 0xFC, 0x08]),
 }
 IMR_VALUES = [0x00, 0x01, 0x04, 0x0F, 0x80, 0x81, 0x84, 0x8F, 0xFF]
 KEYS = ["KEY_Q", "KEY_A", "KEY_F1"]
